@@ -38,7 +38,7 @@ Inductive op :=
 | Remove (key : N)
 | RemoveAll
 | Lock (p : list N) | Unlock (p : list N)
-| Forward (raw len : N)          (* body id and its length in bytes *)
+| Forward (raw len rlen : N)     (* body id, its length, and the length of the agent's canned reply *)
 | Close
 | DirectAdd (b : N) | DirectRemove (b : N).   (* environment: done on the underlying agent directly *)
 
@@ -230,11 +230,11 @@ Section World.
              | Some _ => (set_locked false s1, ROk)
              | None => (s1, RErr EOther)
              end
-    | Forward raw len =>
+    | Forward raw len rlen =>
         (* not guarded by [locked] *)
         if (max_frame <? len)%N then (s, RErr EOther)
         else if closed s then (s, RErr EOther)
-        else let '(u', r) := call_raw script raw (ua s) in
+        else let '(u', r) := call_raw script raw (max_frame <? rlen)%N (ua s) in
              (set_ua u' s,
               match r with
               | Some (RawCanned x) => RRaw x
